@@ -1,14 +1,18 @@
 #!/usr/bin/env python3
-"""Run every claimed check against a seeded mutant applied to /repo (and undo it).  usage: seedcheck.py <patch.diff> -> prints {prop: n_violations}"""
+"""Run every claimed check against a seeded mutant applied to /repo (and undo it).  usage: seedcheck.py <patch.diff> [quick|thorough] [props,comma] -> prints {prop: n_violations}"""
 import json, subprocess, sys
 patch = sys.argv[1]
+tier = sys.argv[2] if len(sys.argv) > 2 else 'quick'
+only = sys.argv[3].split(',') if len(sys.argv) > 3 else None
 props = [c['property_id'] for c in json.load(open('/verif/MANIFEST.json'))['checks']]
 assert subprocess.run(['git', '-C', '/repo', 'status', '--porcelain', '--untracked-files=no'], capture_output=True, text=True).stdout.strip() == '', '/repo dirty'
 res = {}
 try:
     subprocess.check_call(['git', '-C', '/repo', 'apply', patch])
     for p in props:
-        r = subprocess.run(['/verif/check', p], capture_output=True, text=True)
+        if only and p not in only:
+            continue
+        r = subprocess.run(['/verif/check', p, '--tier', tier], capture_output=True, text=True)
         lines = [l for l in r.stdout.splitlines() if l.startswith('VIOLATION')]
         if r.returncode != 0:
             res[p] = sorted({l.split('rule=')[1].split(' ')[0] for l in lines})
